@@ -16,8 +16,9 @@ from . import build
 from .prop import run_jobs
 
 VERIF = build.VERIF
-EVIDENCE = os.path.join(VERIF, 'evidence')
-REPLAYS = os.path.join(VERIF, 'replays')
+_OUT = os.environ.get('VERIF_BUILD') or VERIF
+EVIDENCE = os.path.join(_OUT, 'evidence')
+REPLAYS = os.path.join(_OUT, 'replays')
 KNOWN = os.path.join(VERIF, 'known_findings.json')
 
 
@@ -126,11 +127,11 @@ def main(argv=None):
         print('violated: %s (%s) at %s\n  model: %s' % (v['msg'], v['kind'], v['site'], json.dumps(v['model'], default=str)[:600]))
         print('VIOLATION property=%s replay=%s' % (pid, os.path.relpath(path, VERIF)))
         status = 1
+    for key, v in unconfirmed:
+        print('UNCONFIRMED solver model (native replay did not reproduce or is not available): %s\n  site: %s\n  model: %s\n  %s' % (
+            key, v['site'], json.dumps(v['model'], default=str)[:600], json.dumps(v.get('replay_result'), default=str)[:600]))
     if status == 0:
         if unconfirmed:
-            for key, v in unconfirmed:
-                print('UNCONFIRMED solver model (native replay did not reproduce or is not available): %s\n  site: %s\n  model: %s\n  %s' % (
-                    key, v['site'], json.dumps(v['model'], default=str)[:600], json.dumps(v.get('replay_result'), default=str)[:600]))
             status = 2
         if inconclusive:
             for name, n in inconclusive[:40]:
